@@ -57,6 +57,8 @@ struct Result {
   bool lowercase_hemi = false;  // verdict relies on n s e w == N S E W
   const char* why = "";         // reason for REJECT / SILENT
   int npieces = 0;
+  int maxidigits = 0;           // ACCEPT: largest number of significant integer digits in one component (the accuracy of
+                                // numerals longer than a double's 15-16 digits is not documented)
 };
 
 // ------------------------------------------------------------------ symbol table (R2)
@@ -128,10 +130,10 @@ inline std::string lex(const std::string& raw, bool& lower_hemi) {
   return out;
 }
 
-struct Num { bool ok; bool has_point; bool trailing_point; bool frac_zero; long double v; long double ipart; };
+struct Num { bool ok; bool has_point; bool trailing_point; bool frac_zero; long double v; long double ipart; int idigits; };
 // a number is a run of digits with at most one '.', at least one digit
 inline Num number(const std::string& s) {
-  Num r{false, false, false, true, 0, 0};
+  Num r{false, false, false, true, 0, 0, 0};
   size_t nd = 0, np = 0, pp = std::string::npos;
   for (size_t i = 0; i < s.size(); ++i) { if (s[i] == '.') { ++np; pp = i; } else if (s[i] >= '0' && s[i] <= '9') ++nd; else return r; }
   if (nd == 0 || np > 1) return r;
@@ -141,10 +143,11 @@ inline Num number(const std::string& s) {
   r.v = strtold(t.c_str(), nullptr);
   std::string ip = np ? s.substr(0, pp) : s; if (ip.empty()) ip = "0";
   r.ipart = strtold(ip.c_str(), nullptr);
+  { size_t z = 0; while (z < ip.size() && ip[z] == '0') ++z; r.idigits = int(ip.size() - z); }
   return r;
 }
 
-struct Body { Verdict v; long double val; const char* why; };
+struct Body { Verdict v; long double val; const char* why; int idigits = 0; };
 // R6
 inline bool sixty_ok(const Num& x, const char*& why) {
   if (x.ipart < 60) return true;
@@ -156,7 +159,7 @@ inline Body body(const std::string& s) {
   if (s.empty()) return {REJECT, 0, "empty piece"};
   bool colon = s.find(':') != std::string::npos, ind = s.find_first_of("d'\"") != std::string::npos;
   long double comp[3] = {0, 0, 0};
-  bool silent_tp = false;
+  bool silent_tp = false; int idig = 0;
   if (colon && ind) return {SILENT, 0, "colon and d ' \" mixed"};
   if (colon) {
     std::vector<std::string> parts; size_t p = 0;
@@ -170,7 +173,7 @@ inline Body body(const std::string& s) {
       if (last && x.trailing_point) silent_tp = true;
       const char* why = "";
       if (k >= 1 && !sixty_ok(x, why)) return {REJECT, 0, why};
-      comp[k] = x.v;
+      comp[k] = x.v; idig = std::max(idig, x.idigits);
     }
   } else {
     // (number indicator)* [number]
@@ -186,7 +189,7 @@ inline Body body(const std::string& s) {
         if (x.trailing_point) silent_tp = true;
         const char* why = "";
         if (k >= 1 && !sixty_ok(x, why)) return {REJECT, 0, why};
-        comp[k] = x.v; any = true; p = s.size();
+        comp[k] = x.v; idig = std::max(idig, x.idigits); any = true; p = s.size();
         break;
       }
       int k = s[q] == 'd' ? 0 : (s[q] == '\'' ? 1 : 2);
@@ -199,12 +202,12 @@ inline Body body(const std::string& s) {
       if (last && x.trailing_point) silent_tp = true;
       const char* why = "";
       if (k >= 1 && !sixty_ok(x, why)) return {REJECT, 0, why};
-      comp[k] = x.v; rank = k; any = true; p = q + 1;
+      comp[k] = x.v; idig = std::max(idig, x.idigits); rank = k; any = true; p = q + 1;
     }
     if (!any) return {REJECT, 0, "no components"};
   }
   if (silent_tp) return {SILENT, 0, "number ends in a decimal point"};
-  return {ACCEPT, comp[0] + comp[1] / 60.0L + comp[2] / 3600.0L, ""};
+  return {ACCEPT, comp[0] + comp[1] / 60.0L + comp[2] / 3600.0L, "", idig};
 }
 
 // merge runs of minute marks into second marks; leftgreedy decides the pairing in odd runs
@@ -257,7 +260,7 @@ inline Result parse_canon(const std::string& c) {
       flag = f;
       if (hemi == 'S' || hemi == 'W') sign = -sign;
     }
-    sum += sign * b.val; mag += b.val;
+    sum += sign * b.val; mag += b.val; r.maxidigits = std::max(r.maxidigits, b.idigits);
   }
   if (silent) { r.verdict = SILENT; r.why = swhy; return r; }
   r.verdict = ACCEPT; r.value = sum; r.mag = mag; r.flag = flag; r.npieces = (int)pieces.size();
